@@ -48,6 +48,8 @@ type proofStats struct {
 	keptExotic   int
 	// pruned branches that were already part of the tree the proof was made from (a tree taken out of an earlier proof)
 	sourcePruned int
+	// Merkle proof / update cells of the source tree kept in the proof
+	keptMerkle int
 }
 
 // prunedFor is the pruned-branch cell that stands for `orig` in a proof made
@@ -220,18 +222,48 @@ func verifyProof(src string, proof []byte, orig *cell.Cell, wit map[string]any, 
 	}
 	body := pr.Refs[0]
 	// walk the proof and the original in parallel
-	type pair struct{ p, o *cell.Cell }
+	// j is the number of Merkle proof / update cells of the source tree above the position: such a cell looks at
+	// its children one level higher, so a pruned branch below j of them must answer for the levels 0..j
+	type pair struct {
+		p, o *cell.Cell
+		j    int
+	}
 	seen := map[pair]bool{}
 	ok := true
-	var walk func(p, o *cell.Cell, path string)
-	walk = func(p, o *cell.Cell, path string) {
-		if !ok || seen[pair{p, o}] {
+	isMerkle := func(c *cell.Cell) bool {
+		return c.Exotic && (c.Type() == cell.MerkleProof || c.Type() == cell.MerkleUpdate)
+	}
+	// standsFor: p is a pruned branch that reports, at every level 0..j, the hash and depth of o
+	standsFor := func(p, o *cell.Cell, j int) string {
+		if !isPruned(p) || p.Err() != nil {
+			return "size"
+		}
+		for l := 0; l <= j; l++ {
+			if p.HashAt(l) != o.HashAt(l) {
+				return fmt.Sprintf("hash-at-level-%d", l)
+			}
+			if p.DepthAt(l) != o.DepthAt(l) {
+				return fmt.Sprintf("depth-at-level-%d", l)
+			}
+		}
+		return ""
+	}
+	var walk func(p, o *cell.Cell, path string, j int)
+	walk = func(p, o *cell.Cell, path string, j int) {
+		if !ok || seen[pair{p, o, j}] {
 			return
 		}
-		seen[pair{p, o}] = true
+		seen[pair{p, o, j}] = true
+		if j > 2 {
+			harnessErr("source tree with more than two nested Merkle cells")
+			ok = false
+			return
+		}
 		if isPruned(o) {
 			// a pruned branch of the source tree: kept or pruned again, it is the same cell
-			if !p.Exotic || !rbits.Equal(p.Bits, o.Bits) || len(p.Refs) != 0 {
+			// (below a Merkle cell of the source: or a pruned branch that stands for it at the levels 0..j)
+			same := p.Exotic && rbits.Equal(p.Bits, o.Bits) && len(p.Refs) == 0
+			if !same && !(j > 0 && standsFor(p, o, j) == "") {
 				wit["path"], wit["proof_cell"], wit["source_pruned_branch"] = path, mon.Hex(p.Data()), mon.Hex(o.Data())
 				out.Violation("pruned-branch-of-the-source-tree-changed@"+src, wit)
 				ok = false
@@ -240,36 +272,41 @@ func verifyProof(src string, proof []byte, orig *cell.Cell, wit map[string]any, 
 			st.sourcePruned++
 			return
 		}
-		if o.Exotic && p.Exotic && p.Type() == o.Type() && rbits.Equal(p.Bits, o.Bits) && len(p.Refs) == len(o.Refs) && p.Type() != cell.PrunedBranch {
-			// an exotic cell of the original (a library cell) kept as it is
-			st.kept++
-			st.keptExotic++
-			return
-		}
 		if o.Exotic && !p.Exotic {
 			wit["path"], wit["original_type"] = path, o.Type()
 			out.Violation("exotic-cell-lost-its-type@"+src, wit)
 			ok = false
 			return
 		}
-		if p.Exotic {
+		if p.Exotic && !(o.Exotic && p.Type() == o.Type()) {
 			if p.Type() != cell.PrunedBranch {
 				wit["path"], wit["type"] = path, p.Type()
 				out.Violation("unexpected-exotic-cell@"+src, wit)
 				ok = false
 				return
 			}
-			if what := prunedDefect(p, o); what != "" {
+			what := ""
+			if j == 0 {
+				what = prunedDefect(p, o)
+			} else {
+				what = standsFor(p, o, j)
+			}
+			if what != "" {
 				want := prunedFor(o)
-				wit["path"], wit["pruned_cell"], wit["want"] = path, mon.Hex(p.Data()), mon.Hex(want.Data())
+				wit["path"], wit["pruned_cell"], wit["want_at_level_0"], wit["merkle_cells_of_the_source_above"] = path, mon.Hex(p.Data()), mon.Hex(want.Data()), j
 				wit["replaced_subtree_depth"], wit["replaced_subtree_refs"] = o.Depth(), len(o.Refs)
-				out.Violation("pruned-cell-mismatch/"+what+"@"+src, wit)
+				sfx := ""
+				if j > 0 {
+					sfx = "/below-a-merkle-cell-of-the-source"
+				}
+				out.Violation("pruned-cell-mismatch/"+what+sfx+"@"+src, wit)
 				ok = false
 				return
 			}
 			st.pruned++
 			return
 		}
+		// a cell kept as it is: ordinary, or an exotic cell of the source (library cell, Merkle proof / update cell)
 		if !rbits.Equal(p.Bits, o.Bits) || len(p.Refs) != len(o.Refs) {
 			wit["path"], wit["proof_cell"], wit["original_cell"] = path, rbits.FiftHex(p.Bits), rbits.FiftHex(o.Bits)
 			wit["proof_refs"], wit["original_refs"] = len(p.Refs), len(o.Refs)
@@ -278,11 +315,19 @@ func verifyProof(src string, proof []byte, orig *cell.Cell, wit map[string]any, 
 			return
 		}
 		st.kept++
+		if p.Exotic {
+			st.keptExotic++
+		}
+		cj := j
+		if isMerkle(o) {
+			cj++
+			st.keptMerkle++
+		}
 		for i := range p.Refs {
-			walk(p.Refs[i], o.Refs[i], fmt.Sprintf("%s/%d", path, i))
+			walk(p.Refs[i], o.Refs[i], fmt.Sprintf("%s/%d", path, i), cj)
 		}
 	}
-	walk(body, orig, "")
+	walk(body, orig, "", 0)
 	if !ok {
 		return nil, st, false
 	}
@@ -1057,7 +1102,7 @@ func dictCase(idx int) {
 func treeCase(idx int) {
 	r := R.Rng("tree", idx)
 	var rootRef *cell.Cell
-	kind := mon.Pick(r, []string{"random-dag", "random-dag", "random-dag", "chain", "wide", "single-cell", "with-exotic-leaves", "deep-chain", "with-pruned-branches", "taken-from-a-proof"})
+	kind := mon.Pick(r, []string{"random-dag", "random-dag", "random-dag", "chain", "wide", "single-cell", "with-exotic-leaves", "deep-chain", "with-pruned-branches", "taken-from-a-proof", "with-merkle-cells"})
 	// ordinary cells over leaves made by `leaf`
 	var over func(d int, leaf func() *cell.Cell) *cell.Cell
 	over = func(d int, leaf func() *cell.Cell) *cell.Cell {
@@ -1091,6 +1136,33 @@ func treeCase(idx int) {
 			rootRef.Refs[0] = gen.RawPruned(r, 1)
 			rootRef = cell.New(rootRef.Bits, false, rootRef.Refs...)
 		}
+	case "with-merkle-cells":
+		// a tree that carries a Merkle proof or a Merkle update cell (a message, a block, a dictionary value with a
+		// proof inside). tongo may refuse to make a proof from it (it does today: "unsupported cell type"); if it
+		// returns one, that proof must commit to the tree like any other, whatever was pruned below the Merkle cell
+		partial := func() *cell.Cell {
+			x := over(0, func() *cell.Cell {
+				if r.Chance(1, 3) {
+					return gen.RawPruned(r, 1)
+				}
+				return cell.New(r.Bits(r.Intn(60)), false)
+			})
+			return x
+		}
+		merkle := func() *cell.Cell {
+			if r.Chance(1, 3) {
+				return cell.NewMerkleUpdate(partial(), partial())
+			}
+			return cell.NewMerkleProof(partial())
+		}
+		placed := false
+		rootRef = over(0, func() *cell.Cell {
+			if !placed || r.Chance(1, 4) {
+				placed = true
+				return merkle()
+			}
+			return cell.New(r.Bits(r.Intn(60)), false, cell.New(r.Bits(r.Intn(20)), false))
+		})
 	case "taken-from-a-proof":
 		// the reference prover's output for a random DAG: the body of a proof is itself a tree one can prove from
 		full := gen.RandomDag(r, gen.DagOpts{Nodes: r.Range(4, 40), SmallBits: true})
@@ -1165,6 +1237,27 @@ func treeCase(idx int) {
 		R.HarnessError("tree changed on the way to tongo")
 		return
 	}
+	// position of the first Merkle proof / update cell of the source tree (nil: none)
+	var merklePath []int
+	if kind == "with-merkle-cells" {
+		var find func(o *cell.Cell, pth []int) bool
+		find = func(o *cell.Cell, pth []int) bool {
+			if o.Exotic && (o.Type() == cell.MerkleProof || o.Type() == cell.MerkleUpdate) {
+				merklePath = append([]int{}, pth...)
+				return true
+			}
+			for j, x := range o.Refs {
+				if find(x, append(pth, j)) {
+					return true
+				}
+			}
+			return false
+		}
+		if !find(orig, nil) || len(merklePath) == 0 {
+			R.HarnessError("generator: no Merkle cell below the root of a with-merkle-cells tree")
+			return
+		}
+	}
 	R.Seen("tree_kinds", kind+"/"+via)
 	R.Seen("source_tree_levels", fmt.Sprint(orig.Level()))
 	R.Count("trees", 1)
@@ -1174,9 +1267,18 @@ func treeCase(idx int) {
 	// the proofs are created afterwards, in another order (a prover is read-only, every Cursor() has its own
 	// set of positions); or a fresh prover per set
 	shareProver := idx%3 == 0
+	// a tree with a Merkle cell inside may be refused (an error is not a proof); what is refused is recorded
+	refused := func(where string) {
+		R.Count("trees_with_merkle_cells_refused", 1)
+		R.Seen("trees_with_merkle_cells_refused_at", where)
+	}
 	var sharedProver *tboc.MerkleProver
 	if shareProver {
 		if p := mon.Guard(func() { sharedProver, err = tboc.NewMerkleProver(root) }); p != nil || err != nil {
+			if p == nil && merklePath != nil {
+				refused("NewMerkleProver")
+				return
+			}
 			R.Violation("error@NewMerkleProver", map[string]any{"case": idx, "tree_kind": kind, "err": fmt.Sprint(err, p)})
 			return
 		}
@@ -1202,6 +1304,9 @@ func treeCase(idx int) {
 		paths := [][]int{}
 		var err error
 		style := mon.Pick(r, []string{"few", "few", "many", "root", "none", "nested", "leaves", "siblings-first", "siblings-first"})
+		if merklePath != nil {
+			style = mon.Pick(r, []string{"below-the-merkle-cell", "below-the-merkle-cell", "below-the-merkle-cell", "beside-the-merkle-cell", "the-merkle-cell-itself", "none", "few", "leaves"})
+		}
 		ps := &pruneSet{s: s, wit: wit, style: style}
 		p := mon.Guard(func() {
 			pv := sharedProver
@@ -1226,8 +1331,42 @@ func treeCase(idx int) {
 				c, _, pth := descendFrom(cur, orig, nil, maxDepth, toLeaf)
 				return c, pth
 			}
+			// the cursor, the reference cell and the path of the first Merkle cell of the source tree
+			atMerkle := func() (*tboc.Cursor, *cell.Cell) {
+				c, o := cur, orig
+				for _, j := range merklePath {
+					c, o = c.Ref(j), o.Refs[j]
+				}
+				return c, o
+			}
 			switch style {
 			case "none":
+			case "below-the-merkle-cell":
+				for i := 0; i < r.Range(1, 3); i++ {
+					c, o := atMerkle()
+					j := r.Intn(len(o.Refs))
+					c, _, pth := descendFrom(c.Ref(j), o.Refs[j], append(append([]int(nil), merklePath...), j), r.Intn(4), false)
+					c.Prune()
+					paths = append(paths, pth)
+				}
+			case "beside-the-merkle-cell":
+				// a sibling of the Merkle cell, or of one of its ancestors
+				if len(merklePath) > 0 {
+					k := r.Intn(len(merklePath))
+					c, o := cur, orig
+					for _, j := range merklePath[:k] {
+						c, o = c.Ref(j), o.Refs[j]
+					}
+					if len(o.Refs) > 1 {
+						j := (merklePath[k] + 1 + r.Intn(len(o.Refs)-1)) % len(o.Refs)
+						c.Ref(j).Prune()
+						paths = append(paths, append(append([]int(nil), merklePath[:k]...), j))
+					}
+				}
+			case "the-merkle-cell-itself":
+				c, _ := atMerkle()
+				c.Prune()
+				paths = append(paths, append([]int(nil), merklePath...))
 			case "root":
 				cur.Prune()
 				paths = append(paths, []int{})
@@ -1297,9 +1436,13 @@ func treeCase(idx int) {
 			R.Violation("panic@"+p.Site+"/"+src+"(cursor)", wit)
 			ps.failed = true
 		} else if err != nil {
+			ps.failed = true
+			if merklePath != nil {
+				refused("NewMerkleProver")
+				return ps
+			}
 			wit["err"] = err.Error()
 			R.Violation("error@NewMerkleProver", wit)
-			ps.failed = true
 		}
 		return ps
 	}
@@ -1321,9 +1464,17 @@ func treeCase(idx int) {
 		R.Count("proofs_generic_trees", 1)
 		R.Seen("prune_styles", style)
 		if err != nil {
+			if merklePath != nil {
+				refused("CreateProof/" + style)
+				return
+			}
 			wit["err"] = err.Error()
 			R.Violation("error@"+src, wit)
 			return
+		}
+		if merklePath != nil {
+			R.Count("proofs_returned_for_trees_with_merkle_cells", 1)
+			R.Seen("proofs_returned_for_trees_with_merkle_cells_styles", style)
 		}
 		_, st, ok := verifyProof(src, proof, orig, wit, paths)
 		if !ok {
@@ -1332,6 +1483,7 @@ func treeCase(idx int) {
 		R.Count("pruned_cells_verified", int64(st.pruned))
 		R.Count("kept_cells_verified", int64(st.kept))
 		R.Count("pruned_branches_of_the_source_tree_verified", int64(st.sourcePruned))
+		R.Count("merkle_cells_of_the_source_tree_kept_in_proofs", int64(st.keptMerkle))
 		if idx < 3 && s == 0 {
 			R.Sample(map[string]any{"kind": "generic tree proof", "tree_kind": kind, "prune_paths": paths, "proof_bytes": len(proof), "pruned_cells": st.pruned, "kept_cells": st.kept, "original_root_hash": mon.Hex(oh[:])})
 		}
@@ -1361,9 +1513,9 @@ func main() {
 	}
 	R = mon.Start("C18", tier)
 	out = R
-	R.Rule = "dictionary proofs: tlb.ProveKeyInHashmap for every present key (<=64, else 64 sampled) and up to 32 absent keys of each dictionary (widths 8/16/32/64/256, C05's key-set shapes, written by the reference writer with canonical or mixed labels or by tongo, handed over in memory or through a BOC); generic proofs: MerkleProver cursor API over random DAGs/chains/wide trees with 2-5 prune sets each. Every proof is parsed by the strict reference BOC reader (which also re-derives every level mask), its root must be a type-3 cell with hash and depth of the original root, the pruned tree's level-0 hash/depth must equal them, the proof is walked in parallel with the original (pruned cell == 01 01 hash depth of the replaced sub-tree; other cells identical), the key is looked up inside the proof by the reference dictionary reader, tongo re-reads the proof to the same root hash and decodes the same pairs from it; absent key => error. evaluations = proofs requested; distinct = (original root hash, key | prune paths). Added input classes: key widths 13/30/61/96 (not multiples of 8 or 4); augmented dictionaries (HashmapAug: forks with data after the label and a third reference); a comb over the full key width (256 levels); dictionaries whose cells were read to their end before (only the root rewound); dictionaries and trees that already contain pruned branches (level 1: taken out of an earlier proof) - the proof commits to the level-0 hash and depth of the tree it was made from and a pruned branch of the source is kept as it is; cursor API: all children cursors of a node taken first and pruned later, several live cursors of one prover marked before any proof is created, and the positions of the pruned branches in the proof must be exactly the requested positions (minus those below another requested position); one prover shared by 8 goroutines (child process): each goroutine proves keys from its own parsed copy of the dictionary cells, or prunes positions of a common pool through its own Cursor(), all starting at the same moment; every proof is verified afterwards by the same oracle, a child that dies with a fatal run-time error is a violation fatal@.../shared-prover"
+	R.Rule = "dictionary proofs: tlb.ProveKeyInHashmap for every present key (<=64, else 64 sampled) and up to 32 absent keys of each dictionary (widths 8/16/32/64/256, C05's key-set shapes, written by the reference writer with canonical or mixed labels or by tongo, handed over in memory or through a BOC); generic proofs: MerkleProver cursor API over random DAGs/chains/wide trees with 2-5 prune sets each. Every proof is parsed by the strict reference BOC reader (which also re-derives every level mask), its root must be a type-3 cell with hash and depth of the original root, the pruned tree's level-0 hash/depth must equal them, the proof is walked in parallel with the original (pruned cell == 01 01 hash depth of the replaced sub-tree; other cells identical), the key is looked up inside the proof by the reference dictionary reader, tongo re-reads the proof to the same root hash and decodes the same pairs from it; absent key => error. evaluations = proofs requested; distinct = (original root hash, key | prune paths). Added input classes: key widths 13/30/61/96 (not multiples of 8 or 4); augmented dictionaries (HashmapAug: forks with data after the label and a third reference); a comb over the full key width (256 levels); dictionaries whose cells were read to their end before (only the root rewound); dictionaries and trees that already contain pruned branches (level 1: taken out of an earlier proof) - the proof commits to the level-0 hash and depth of the tree it was made from and a pruned branch of the source is kept as it is; cursor API: all children cursors of a node taken first and pruned later, several live cursors of one prover marked before any proof is created, and the positions of the pruned branches in the proof must be exactly the requested positions (minus those below another requested position); one prover shared by 8 goroutines (child process): each goroutine proves keys from its own parsed copy of the dictionary cells, or prunes positions of a common pool through its own Cursor(), all starting at the same moment; every proof is verified afterwards by the same oracle, a child that dies with a fatal run-time error is a violation fatal@.../shared-prover; source trees that carry a Merkle proof / update cell, with positions pruned below it, beside it and the Merkle cell itself: an error is accepted (counted), a returned proof must verify like any other (a pruned branch below j Merkle cells of the source must report the hash and depth of what it replaces at the levels 0..j)"
 	R.Assume("reference models harness/ref/cell, ref/boc, ref/dict are correct: pinned at start-up by the Merkle equations and dictionaries of the repository's real data")
-	R.Assume("source trees have level 0 or 1 (ordinary and library cells, and pruned branches of mask 1 as found in the body of a proof); trees containing Merkle-proof/update cells or pruned branches of higher levels are not tried (pruneCells declares the former unsupported)")
+	R.Assume("source trees have level 0 or 1 (ordinary and library cells, and pruned branches of mask 1 as found in the body of a proof); pruned branches of higher levels are not tried; for trees containing Merkle proof / update cells an error instead of a proof is accepted (pruneCells declares them unsupported)")
 	R.Assume("a MerkleProver may be used by several goroutines at once as long as each has its own Cursor (and, for ProveKeyInHashmap, its own cell tree to read): the prover is a read-only view of the tree")
 	R.Assume("cursor API: Prune() marks the position of the cursor; the proof has pruned branches exactly at the marked positions that are not below another marked position")
 	eq, cells, err := realdata.SelfCheck(mon.RepoRoot(), true)
